@@ -165,3 +165,16 @@ reg("C16",
                "and a static extract of the fields the code inspects")
 REGISTRY["C10"]["theorems"] += T("Proofs.Bridge.Tables", "BLDFM.Bridge", ["level_store_table"], "bridge")
 REGISTRY["C10"]["kernel_groups"].append("Tables")
+
+reg("C20",
+    T("Proofs.C20", "BLDFM.C20", ["rescaled_eq_prefix_sum", "rescaled_bounds", "rescaled_antitone", "rescaled_antitone_in_g",
+                                  "rescaled_increasing_map", "rescaled_scale", "searchsorted_mono", "searchsorted_spec",
+                                  "percentile_area_mono", "percentile_level_antitone", "percentile_scale",
+                                  "upwind_is_projection", "crosswind_is_neg_sq_distance", "circular_is_neg_sq_radius"])
+    + T("Proofs.Bridge.MiscK", "BLDFM.Bridge", ["base_bridge"], "bridge")
+    + T("Proofs.Bridge.Tables", "BLDFM.Bridge", ["source_area_steps_table", "percentile_steps_table"], "bridge"),
+    kernel_groups=["MiscK", "Tables"],
+    partial_clauses=["float summation order", "zero-weight cells whose g is below every weighted cell receive exactly `total` (the defining clause); not flagged",
+                     "the two-sided tie bound sum_{g'>g} f <= out <= sum_{g'>=g, c'!=c} f is checked by the O(n^2) oracle; the theorems give 0 <= out <= total - f c, "
+                     "monotonicity in rank and in g"],
+    assumptions=["sigma is a sorting permutation returned by argsort (Nodup, g o sigma non-increasing)", "f >= 0", "searchsorted on the non-decreasing cumulative sums"])
